@@ -1,0 +1,13 @@
+//go:build verif
+
+package limitparallelrequests
+
+// VerifQueues reports the number of endpoint queue entries and the total number of queued waiters.
+func (c *LimitParallelRequests) VerifQueues() (endpoints int, waiters int) {
+	c.endpointQueues.Range2(func(_ uint64, q *endpointQueue) bool {
+		endpoints++
+		waiters += len(q.orderedRequest)
+		return true
+	})
+	return endpoints, waiters
+}
